@@ -398,6 +398,10 @@ func (vc *VC) strLit(s string) string {
 		vc.assume(fmt.Sprintf("(not (= %s %s))", name, on))
 	}
 	vc.strlits[s] = name
+	if s == "" {
+		// the empty string is the only string of length 0
+		vc.assume(fmt.Sprintf("(forall ((s Str)) (! (=> (= (slen s) 0) (= s %s)) :pattern ((slen s))))", name))
+	}
 	return name
 }
 
